@@ -906,4 +906,282 @@ theorem parseList_members {fld : Str} {b : Bound} {names : List Str} {l : List N
             simp [hy, hall y hyl]
       · cases h
 
+/-! ## whitespace normalisation -/
+
+/-- a (possibly empty) run of RE2 `\s` characters -/
+def AllReSpace (w : Str) : Prop := ∀ c ∈ w, isReSpace c = true
+
+theorem AllReSpace.tail {c : Char} {w : Str} (h : AllReSpace (c :: w)) : AllReSpace w :=
+  fun d hd => h d (by simp [hd])
+
+theorem collapseAux_true_run (w y : Str) (hw : AllReSpace w) :
+    collapseAux true (w ++ y) = collapseAux true y := by
+  induction w with
+  | nil => rfl
+  | cons c w ih =>
+    have hc : isReSpace c = true := hw c (by simp)
+    simp only [List.cons_append, collapseAux, hc, if_true]
+    exact ih hw.tail
+
+theorem collapseAux_run (f : Bool) (w y : Str) (hne : w ≠ []) (hw : AllReSpace w) :
+    collapseAux f (w ++ y) = (if f then [] else [' ']) ++ collapseAux true y := by
+  cases w with
+  | nil => exact absurd rfl hne
+  | cons c w =>
+    have hc : isReSpace c = true := hw c (by simp)
+    simp only [List.cons_append, collapseAux, hc, if_true]
+    rw [collapseAux_true_run w y hw.tail]
+    cases f <;> simp
+
+theorem collapseAux_between (f : Bool) (x y w1 w2 : Str) (h1 : w1 ≠ []) (h2 : w2 ≠ [])
+    (a1 : AllReSpace w1) (a2 : AllReSpace w2) :
+    collapseAux f (x ++ (w1 ++ y)) = collapseAux f (x ++ (w2 ++ y)) := by
+  induction x generalizing f with
+  | nil => simp only [List.nil_append]; rw [collapseAux_run f w1 y h1 a1, collapseAux_run f w2 y h2 a2]
+  | cons c x ih =>
+    simp only [List.cons_append, collapseAux]
+    split
+    · split
+      · exact ih true
+      · rw [ih true]
+    · rw [ih false]
+
+theorem trimExpr_between (x y w1 w2 : Str) (h1 : w1 ≠ []) (h2 : w2 ≠ [])
+    (a1 : AllReSpace w1) (a2 : AllReSpace w2) :
+    trimExpr (x ++ w1 ++ y) = trimExpr (x ++ w2 ++ y) := by
+  unfold trimExpr collapseSpace
+  rw [List.append_assoc, List.append_assoc, collapseAux_between false x y w1 w2 h1 h2 a1 a2]
+
+theorem isUniSpace_space : isUniSpace ' ' = true := by decide
+
+theorem dropWhile_collapseAux (x : Str) :
+    (collapseAux true x).dropWhile isUniSpace = (collapseAux false x).dropWhile isUniSpace := by
+  cases x with
+  | nil => rfl
+  | cons c x =>
+    simp only [collapseAux]
+    split
+    · simp [isUniSpace_space]
+    · rfl
+
+theorem trimExpr_leading (w x : Str) (hw : AllReSpace w) : trimExpr (w ++ x) = trimExpr x := by
+  cases hw0 : w with
+  | nil => rfl
+  | cons c w' =>
+    subst hw0
+    unfold trimExpr collapseSpace trimSpace
+    rw [collapseAux_run false (c :: w') x (by simp) hw]
+    simp only [Bool.false_eq_true, if_false, List.singleton_append, List.dropWhile_cons,
+      isUniSpace_space, if_true]
+    rw [dropWhile_collapseAux]
+
+theorem collapseAux_trailing (f : Bool) (x w : Str) (hw : AllReSpace w) :
+    ∃ e, (e = [] ∨ e = [' ']) ∧ collapseAux f (x ++ w) = collapseAux f x ++ e := by
+  induction x generalizing f with
+  | nil =>
+    by_cases hne : w = []
+    · subst hne; exact ⟨[], Or.inl rfl, rfl⟩
+    · have := collapseAux_run f w [] hne hw
+      simp only [List.append_nil] at this
+      refine ⟨if f then [] else [' '], ?_, ?_⟩
+      · cases f <;> simp
+      · simp only [List.nil_append, this, collapseAux, List.append_nil]
+  | cons c x ih =>
+    simp only [List.cons_append, collapseAux]
+    split
+    · split
+      · exact ih true
+      · obtain ⟨e, he, h⟩ := ih true
+        exact ⟨e, he, by rw [h]; rfl⟩
+    · obtain ⟨e, he, h⟩ := ih false
+      exact ⟨e, he, by rw [h]; rfl⟩
+
+theorem trimSpace_append_space (A : Str) : trimSpace (A ++ [' ']) = trimSpace A := by
+  unfold trimSpace
+  rw [List.dropWhile_append]
+  split
+  · rename_i hemp
+    have : A.dropWhile isUniSpace = [] := by simpa using hemp
+    rw [this]
+    simp [isUniSpace_space]
+  · simp [isUniSpace_space]
+
+theorem trimExpr_trailing (x w : Str) (hw : AllReSpace w) : trimExpr (x ++ w) = trimExpr x := by
+  unfold trimExpr collapseSpace
+  obtain ⟨e, he, h⟩ := collapseAux_trailing false x w hw
+  rw [h]
+  rcases he with rfl | rfl
+  · simp
+  · exact trimSpace_append_space _
+
+/-! ## the list field, exactly -/
+
+section ListMeaning
+open List
+
+theorem perm_insertSorted (x : Nat) (l : List Nat) : insertSorted x l ~ x :: l := by
+  induction l with
+  | nil => exact Perm.refl _
+  | cons h t ih =>
+    simp only [insertSorted]
+    split
+    · exact Perm.refl _
+    · exact ((Perm.cons h ih).trans (Perm.swap x h t))
+
+theorem perm_sortNat (l : List Nat) : sortNat l ~ l := by
+  induction l with
+  | nil => exact Perm.refl _
+  | cons a t ih =>
+    have : sortNat (a :: t) = insertSorted a (sortNat t) := rfl
+    rw [this]
+    exact (perm_insertSorted a _).trans (Perm.cons a ih)
+
+/-- `sort.Ints` depends only on the multiset of its input -/
+theorem sortNat_perm {l₁ l₂ : List Nat} (h : l₁ ~ l₂) : sortNat l₁ = sortNat l₂ := by
+  apply Perm.eq_of_pairwise (le := (· ≤ ·)) (fun a b _ _ h1 h2 => Nat.le_antisymm h1 h2)
+    (pairwise_sortNat l₁) (pairwise_sortNat l₂)
+  exact (perm_sortNat l₁).trans (h.trans (perm_sortNat l₂).symm)
+
+theorem mapM'_eq_none {α β} {f : α → Option β} {l : List α} (h : mapM' f l = none) :
+    ∃ x ∈ l, f x = none := by
+  induction l with
+  | nil => simp [mapM'] at h
+  | cons a t ih =>
+    cases hfa : f a with
+    | none => exact ⟨a, by simp, hfa⟩
+    | some b =>
+      cases ht : mapM' f t with
+      | none =>
+        obtain ⟨x, hx, hfx⟩ := ih ht
+        exact ⟨x, by simp [hx], hfx⟩
+      | some bs => simp [mapM', hfa, ht] at h
+
+theorem mapM'_of_forall {α β} {f : α → Option β} {l : List α} (d : β)
+    (h : ∀ x ∈ l, (f x).isSome = true) : mapM' f l = some (l.map (fun x => (f x).getD d)) := by
+  induction l with
+  | nil => rfl
+  | cons a t ih =>
+    have ha := h a (by simp)
+    obtain ⟨y, hy⟩ := Option.isSome_iff_exists.1 ha
+    simp only [mapM', hy, ih (fun x hx => h x (by simp [hx])), List.map_cons, Option.getD_some]
+
+theorem mapM'_congr {α β} {f g : α → Option β} {l : List α} (h : ∀ x ∈ l, f x = g x) :
+    mapM' f l = mapM' g l := by
+  induction l with
+  | nil => rfl
+  | cons a t ih =>
+    simp only [mapM', h a (by simp), ih (fun x hx => h x (by simp [hx]))]
+
+theorem flatten_map_singleton {α β} (l : List α) (g : α → β) : (l.map (fun x => [g x])).flatten = l.map g := by
+  induction l with
+  | nil => rfl
+  | cons a t ih => simp [ih]
+
+/-- **meaning of a list field**: every comma-separated member is parsed on its own
+(`parseMember`: step, range or single value), and the result is the sorted union -/
+theorem parseList_eq (fld : Str) (b : Bound) (names : List Str) :
+    parseList fld b names =
+      (mapM' (fun t => parseMember t b names) (splitOn ',' fld)).map (fun vs => sortNat vs.flatten) := by
+  cases hm : mapM' (fun t => parseMember t b names) (splitOn ',' fld) with
+  | none =>
+    obtain ⟨x, hx, hxn⟩ := mapM'_eq_none hm
+    cases hp : parseList fld b names with
+    | none => rfl
+    | some l =>
+      have := parseList_members hp x hx
+      rw [hxn] at this; cases this
+  | some vs =>
+    have hsome : ∀ x ∈ splitOn ',' fld, (parseMember x b names).isSome = true := by
+      intro x hx
+      obtain ⟨y, _, hy⟩ := mapM'_forall hm x hx
+      simp [hy]
+    have hvs := mapM'_of_forall [] hsome
+    rw [hm] at hvs
+    injection hvs with hvs
+    -- abbreviations
+    generalize hT : splitOn ',' fld = T at *
+    let g : Str → List Nat := fun x => (parseMember x b names).getD []
+    let nz : Str → Int := fun x => (normalize names x).getD 0
+    -- steps
+    have hsv : mapM' (fun s => parseStep s b names) (T.filter (fun v => v.contains '/')) =
+        some ((T.filter (fun v => v.contains '/')).map g) := by
+      rw [mapM'_congr (g := fun t => parseMember t b names)]
+      · exact mapM'_of_forall [] (fun x hx => hsome x (List.mem_filter.1 hx).1)
+      · intro x hx
+        have := (List.mem_filter.1 hx).2
+        simp only [parseMember, this, if_true]
+    -- ranges
+    have hrv : mapM' (fun r => parseRange r b names)
+        ((T.filter (fun v => !v.contains '/')).filter (fun v => v.contains '-')) =
+        some (((T.filter (fun v => !v.contains '/')).filter (fun v => v.contains '-')).map g) := by
+      rw [mapM'_congr (g := fun t => parseMember t b names)]
+      · exact mapM'_of_forall [] (fun x hx => hsome x (List.mem_filter.1 (List.mem_filter.1 hx).1).1)
+      · intro x hx
+        have h2 := (List.mem_filter.1 hx).2
+        have h1 := (List.mem_filter.1 (List.mem_filter.1 hx).1).2
+        simp only [Bool.not_eq_true'] at h1
+        simp only [parseMember, h1, h2, if_true, Bool.false_eq_true, if_false]
+    -- plain values
+    have hplain : ∀ x ∈ (T.filter (fun v => !v.contains '/')).filter (fun v => !v.contains '-'),
+        normalize names x = some (nz x) ∧ inScope (nz x) b.lower b.upper = true ∧ g x = [(nz x).toNat] := by
+      intro x hx
+      have h2 := (List.mem_filter.1 hx).2
+      have h1 := (List.mem_filter.1 (List.mem_filter.1 hx).1).2
+      have hs := hsome x (List.mem_filter.1 (List.mem_filter.1 hx).1).1
+      simp only [Bool.not_eq_true'] at h1 h2
+      simp only [g, nz]
+      simp only [parseMember, h1, h2, Bool.false_eq_true, if_false] at hs ⊢
+      cases hn : normalize names x with
+      | none => rw [hn] at hs; cases hs
+      | some v =>
+        rw [hn] at hs
+        simp only at hs
+        by_cases hsc : inScope v b.lower b.upper = true
+        · simp [hsc]
+        · simp [hsc] at hs
+    have hl : mapM' (normalize names)
+        ((T.filter (fun v => !v.contains '/')).filter (fun v => !v.contains '-')) =
+        some (((T.filter (fun v => !v.contains '/')).filter (fun v => !v.contains '-')).map nz) := by
+      apply mapM'_of_forall 0
+      intro x hx
+      rw [(hplain x hx).1]; rfl
+    have hsc : (((T.filter (fun v => !v.contains '/')).filter (fun v => !v.contains '-')).map nz).all
+        (fun v => inScope v b.lower b.upper) = true := by
+      rw [List.all_eq_true]
+      intro v hv
+      obtain ⟨x, hx, rfl⟩ := List.mem_map.1 hv
+      exact (hplain x hx).2.1
+    have hpl : (((T.filter (fun v => !v.contains '/')).filter (fun v => !v.contains '-')).map nz).map Int.toNat =
+        (((T.filter (fun v => !v.contains '/')).filter (fun v => !v.contains '-')).map g).flatten := by
+      rw [List.map_map, ← flatten_map_singleton]
+      congr 1
+      apply List.map_congr_left
+      intro x hx
+      rw [(hplain x hx).2.2]; rfl
+    unfold parseList
+    simp only [hT, hl, hsc, hsv, hrv, Bool.not_true, Bool.false_eq_true, if_false, Option.map_some]
+    congr 1
+    apply sortNat_perm
+    rw [hpl, hvs]
+    -- permutation bookkeeping
+    have p1 : T ~ T.filter (fun v => v.contains '/') ++ T.filter (fun v => !v.contains '/') :=
+      (filter_append_perm _ T).symm
+    have p2 : T.filter (fun v => !v.contains '/') ~
+        (T.filter (fun v => !v.contains '/')).filter (fun v => v.contains '-') ++
+        (T.filter (fun v => !v.contains '/')).filter (fun v => !v.contains '-') :=
+      (filter_append_perm _ _).symm
+    have p3 := p1.trans (Perm.append_left _ p2)
+    have p4 := (p3.map g).flatten
+    refine Perm.trans ?_ p4.symm
+    simp only [List.map_append, List.flatten_append]
+    generalize ((T.filter (fun v => !v.contains '/')).filter (fun v => !v.contains '-')).map g = P
+    generalize ((T.filter (fun v => !v.contains '/')).filter (fun v => v.contains '-')).map g = R
+    generalize (T.filter (fun v => v.contains '/')).map g = S
+    exact (perm_append_comm (l₁ := P.flatten ++ S.flatten) (l₂ := R.flatten)).trans
+      ((Perm.append_left _ perm_append_comm).trans (by
+        rw [← List.append_assoc, ← List.append_assoc]
+        exact Perm.append_right _ perm_append_comm))
+
+end ListMeaning
+
 end Cron
